@@ -179,7 +179,7 @@ def case_literal(spec, runs, keep=None):
 DTYPES = {("real", 64): np.float64, ("real", 32): np.float32, ("cplx", 64): np.complex128, ("cplx", 32): np.complex64}
 
 
-def gen_exact(rng, cplx, nel, ns, P, mode, bits_data=64, bits_lut=64, sweep=False):
+def gen_exact(rng, cplx, nel, ns, P, mode, bits_data=64, bits_lut=64, sweep=False, edge=None):
     """dyadic-exact frame: dt = 2^-e, t0 = m dt/4, lookups on quarter samples, small-integer data,
     amplitudes / weights small dyadic numbers: every operation of every kernel is exact in binary64
     (and in binary32 where the implementation uses it)."""
@@ -203,6 +203,15 @@ def gen_exact(rng, cplx, nel, ns, P, mode, bits_data=64, bits_lut=64, sweep=Fals
         # pixel p: the pair (tx[0], rx[0]) is exactly on q[p]; other pairs land wherever
         b[:, :] = rng.integers(-3, 2 * ns + 4, size=(P, nel))
         b[:, rx[0]] = q - a[:, tx[0]]
+    elif edge == "late":
+        # EVERY entry of the lookup tables (every pixel, every element pair) is later than the last sample, by 1/4 to 5/4
+        # of a sample: nearest still reads the last sample up to half a step beyond it, Lanczos up to one step
+        a = 2 * (ns - 1) + rng.integers(0, 2, size=(P, nel))
+        b = 2 * (ns - 1) + rng.integers(1, 4, size=(P, nel))
+    elif edge == "early":
+        # ... or earlier than the first sample by 1/4 to 5/4 of a sample
+        a = rng.integers(-2, 0, size=(P, nel))
+        b = rng.integers(-3, 1, size=(P, nel))
     else:
         a = rng.integers(-3, 2 * ns + 4, size=(P, nel))
         b = rng.integers(-3, 2 * ns + 4, size=(P, nel))
@@ -415,6 +424,17 @@ for cplx in (False, True):
         frames.append((spec, runs))
         chk.count(klass="E-boundary", frame="fmc", data=("complex" if cplx else "real") + "64", lookup="float64",
                   numtimetraces=len(spec["tx"]))
+
+# whole focal laws just outside the recorded window (every lookup of every pixel beyond one end, within 5/4 of a sample)
+for cplx in (False, True):
+    for edge_ in ("late", "early"):
+        for nel, mode in ((2, "fmc"), (3, "hmc-perm")):
+            spec = gen_exact(rng, cplx, nel, int(rng.integers(2, 9)), int(rng.integers(2, 7)), mode, edge=edge_)
+            runs = [dict(kernel=k, fill=f, use_w=bool((k + i) % 2)) for k in MEAN_COQ for i, f in enumerate(FILLS)]
+            do_runs(spec, runs)
+            frames.append((spec, runs))
+            chk.count(klass="E-edge-" + edge_, frame=mode, data=("complex" if cplx else "real") + "64", lookup="float64",
+                      numtimetraces=len(spec["tx"]))
 
 n_exact = 120 if Q else 800
 n_rand = 80 if Q else 600
